@@ -455,11 +455,11 @@ def run(ctx):
         # larger grids (3 types x 3 offers, 4 types x 2 offers, factories always succeeding): seeded sample
         big = [c for c in exhaustive(ctx, 3, 3, [["A"]]) if len(c["offers"]) == 3]
         big += [c for c in exhaustive(ctx, 4, 2, [["A"]], with_regs=False) if len(c["types"]) == 4]
-        sample = rnd.sample(big, min(len(big), 8000))
+        sample = rnd.sample(big, min(len(big), 6000))
         ctx.count("grid:<=3 types x <=2 offers x {always,never} (exhaustive)", len(grid))
         ctx.count("grid:2 types x 3 offers x {always,never} (exhaustive)", len(more))
         ctx.count("grid:3 types x 3 offers / 4 types x <=2 offers, always (sample of %d)" % len(big), len(sample))
-        cases = corpus() + grid + more + sample + [gen_case(rnd, ctx, 6, 6, 10) for _ in range(12000)]
+        cases = corpus() + grid + more + sample + [gen_case(rnd, ctx, 6, 6, 10) for _ in range(9000)]
         ctx.cov["exhaustive"] = True
     for c in cases[:2] + cases[-2:]:
         ctx.sample(c)
